@@ -18,6 +18,9 @@ func EvaluateUpdate(q sql.UpdateStatementSearched, rm RelationManager) error {
 	}
 
 	table := q.TableName
+	if storage.IsCatalogTable(table) {
+		return storage.ErrCatalogReadOnly
+	}
 	rows, fields, err := rm.Fetch(table)
 	if err != nil {
 		return err
